@@ -5,6 +5,7 @@ package main
 // format ocaml/dispatch2.ml prints the model's tree in.
 
 import (
+	"bytes"
 	"fmt"
 	"sort"
 	"strings"
@@ -12,6 +13,8 @@ import (
 	"github.com/yuin/goldmark"
 	"github.com/yuin/goldmark/ast"
 	"github.com/yuin/goldmark/parser"
+	"github.com/yuin/goldmark/renderer"
+	"github.com/yuin/goldmark/renderer/html"
 	"github.com/yuin/goldmark/text"
 	"github.com/yuin/goldmark/util"
 )
@@ -102,6 +105,69 @@ func parseTreeCase(c *Ctx, src []byte) {
 		res, _ = dumpTree(doc, src)
 	}()
 	c.Case("ParseTree", []string{hx(src)}, res)
+}
+
+// Convert of the default parser with the four renderer options, against the composed model
+// (ParseTree then RenderHTML)
+var convertMDs = map[string]goldmark.Markdown{}
+
+func convertCase(c *Ctx, cf Cfg, src []byte) {
+	if len(src) > 600 {
+		return
+	}
+	key := rcfgStr(cf)
+	md, ok := convertMDs[key]
+	if !ok {
+		var ro []renderer.Option
+		if cf.Unsafe {
+			ro = append(ro, html.WithUnsafe())
+		}
+		if cf.XHTML {
+			ro = append(ro, html.WithXHTML())
+		}
+		if cf.HardWraps {
+			ro = append(ro, html.WithHardWraps())
+		}
+		md = goldmark.New(goldmark.WithRendererOptions(ro...))
+		convertMDs[key] = md
+	}
+	res := ""
+	func() {
+		defer func() {
+			if r := recover(); r != nil {
+				res = "PANIC"
+			}
+		}()
+		var b bytes.Buffer
+		if err := md.Convert(src, &b); err != nil {
+			res = "ERR"
+			return
+		}
+		res = hx(b.Bytes())
+	}()
+	c.Case("Convert", []string{key, hx(src)}, res)
+}
+
+var convertCfgs = []Cfg{{}, {Unsafe: true}, {XHTML: true}, {Unsafe: true, XHTML: true}, {HardWraps: true}, {Unsafe: true, XHTML: true, HardWraps: true}}
+
+// parserModelCases: the documents of a run (each once, up to max) against the parser model and
+// the composed Convert model
+func parserModelCases(c *Ctx, items []docItem, max int) {
+	seen := map[string]bool{}
+	n := 0
+	for i, it := range items {
+		if n >= max {
+			break
+		}
+		if len(it.doc) > 600 || seen[string(it.doc)] {
+			continue
+		}
+		seen[string(it.doc)] = true
+		n++
+		parseTreeCase(c, it.doc)
+		convertCase(c, convertCfgs[i%len(convertCfgs)], it.doc)
+	}
+	c.Rep.Extra["parser_model_documents"] = n
 }
 
 // experiment runner: parser-model cases only
